@@ -155,10 +155,12 @@ def gen_mesen(rng):
     """a 16-byte header bank, a PRG bank behind it whose address unit is 8, 16 or 32 bits, a bank without output: (program,
     the lines the Mesen label file must have: P:<byte offset in the file - 16> for labels of banks with output, none for
     labels inside the header, R:<address> for labels of banks without output)"""
-    unit = rng.choice([8, 16, 16, 32])
+    unit = rng.choice([8, 16, 16, 32, 4])
     a0 = rng.choice([0, 0x8000, 0xc000, 0x10])
+    # (a bank of 4-bit units may start on a half byte: offsets are computed in bits before dividing)
+    half = 4 if unit == 4 and rng.random() < 0.6 else 0
     lines = ["#bankdef header { #addr 0, #size 0x10, #outp 0 }",
-             "#bankdef prg { #bits %d, #addr 0x%x, #size 0x200, #outp 8 * 0x10 }" % (unit, a0),
+             "#bankdef prg { #bits %d, #addr 0x%x, #size 0x200, #outp 8 * 0x10 + %d }" % (unit, a0, half),
              "#bankdef ram { #bits %d, #addr 0x%x, #size 0x100 }" % (rng.choice([8, 16]), rng.choice([0, 0x200])),
              "#bank header"]
     want = []
@@ -179,7 +181,7 @@ def gen_mesen(rng):
             if rng.random() < 0.3 and i:
                 nm = "p%d.in" % (i - 1) if ("p%d:" % (i - 1)) in lines else nm
             lines.append((("." + nm.split(".")[1]) if "." in nm else nm) + ":")
-            want.append("P:%x:%s" % (pos // 8, nm.replace(".", "_")))
+            want.append("P:%x:%s" % ((pos + half) // 8, nm.replace(".", "_")))
         n = rng.randrange(1, 4)
         lines.append("    #d%d %s" % (unit, ", ".join(str(rng.randrange(1 << min(unit, 16))) for _ in range(n))))
         pos += unit * n
